@@ -147,7 +147,39 @@ func (d *drv) dkg(s thrScen, idmap string) {
 			}
 			partyOK[j] = ok
 		}
-		base["ev"], base["valid"], base["party_ok"] = "ThrDeal", valid, partyOK
+		// a second aggregation pass over a smaller qualified set on the SAME DKG objects (a retried view-change
+		// "wait" phase: DeleteFromSet + AggregateSecretKeyShares + AggregatePublicKeyShares): the keys the
+		// remaining parties then hold must again verify under the keys every party derives for them
+		reagg := []bool{}
+		distinct := map[string]bool{}
+		for _, p := range x.pid {
+			distinct[p.GetHexString()] = true
+		}
+		if idmap == "hash" && s.N >= 2 && len(distinct) == s.N {
+			drop := s.N - 1
+			mpks2 := map[tbls.PartyID][]tbls.PublicKey{}
+			for i := 0; i < s.N; i++ {
+				if i != drop {
+					mpks2[x.pid[i]] = x.mpks[x.pid[i]]
+				}
+			}
+			for j := 0; j < s.N; j++ {
+				x.dkgs[j].DeleteFromSet([]string{x.minerID[drop]})
+				x.dkgs[j].AggregateSecretKeyShares()
+				must(x.dkgs[j].AggregatePublicKeyShares(mpks2))
+			}
+			for j := 0; j < s.N; j++ {
+				ok := true
+				if j != drop {
+					sg := x.dkgs[j].Sign(msg)
+					for k := 0; k < s.N; k++ {
+						ok = ok && x.dkgs[k].VerifySignature(sg, msg, x.pid[j])
+					}
+				}
+				reagg = append(reagg, ok)
+			}
+		}
+		base["ev"], base["valid"], base["party_ok"], base["reagg_ok"] = "ThrDeal", valid, partyOK, reagg
 		d.rc.Emit(base, fmt.Sprintf("dkg/%s/t%dn%d/tam%v", idmap, s.T, s.N, len(s.Tam) > 0), true)
 		return
 	}
